@@ -661,11 +661,12 @@ def ctype_reads(chk: Check, ctx):
             continue
         # the read site must be this very call (not one inlined from elsewhere)
         h = rd[3]
-        if h[0] in ("c",) or (h[0] == "call" and h[1] in (".ljust", "ext:io.BytesIO", "bytes", ".tobytes")):
-            continue  # parsing from an in-memory buffer
         if not n.args:
             continue
-        out.append((n, chk.R.expr(ctx, n.args[0])))
+        h = chk.R.expr(ctx, n.args[0])
+        if not _looks_like_handle(h) or (h[0] == "call" and h[1] == "ext:io.BytesIO"):
+            continue  # parsing from an in-memory buffer / bytes
+        out.append((n, h))
     return out
 
 
@@ -689,6 +690,8 @@ def classify_effect(t, own_handle=None, parent=None):
         return ("ZEROS", z)
     if t[0] == "join":
         return ("JOIN", [classify_effect(a, own_handle, parent) for a in t[1]])
+    if t[0] == "ite":
+        return ("JOIN", [classify_effect(t[2], own_handle, parent), classify_effect(t[3], own_handle, parent)])
     if t[0] == "call" and t[1].startswith(".") and t[2]:
         recv = t[2][0]
         if parent is not None and same_handle(recv, parent):
@@ -708,7 +711,7 @@ def classify_effect(t, own_handle=None, parent=None):
     return ("OTHER", t)
 
 
-def reach_table(conds, controlled: dict, combos):
+def reach_table(conds, controlled: dict, combos, override=None, fields=None):
     """controlled: name -> term (or ('field', key)); combos: list of dict name -> value.
     For each combo: do all path conditions that mention a controlled subject hold?"""
     terms = {n: t for n, t in controlled.items() if not (isinstance(t, tuple) and t and t[0] == "field")}
@@ -728,7 +731,153 @@ def reach_table(conds, controlled: dict, combos):
     rel = [(t, p) for t, p in conds if mentions(t)]
     out = []
     for combo in combos:
-        ov = {terms[n]: v for n, v in combo.items() if n in terms}
-        fl = {fkeys[n]: v for n, v in combo.items() if n in fkeys}
+        ov = dict(override or {})
+        ov.update({terms[n]: v for n, v in combo.items() if n in terms})
+        fl = dict(fields or {})
+        fl.update({fkeys[n]: v for n, v in combo.items() if n in fkeys})
         out.append(eval_conds(rel, S.Valuation(1, override=ov, fields=fl)))
     return out
+
+
+# ---------------------------------------------------------------------------------------
+# loop-free function evaluation (decision structure), dead reads
+
+
+def func_outcomes(chk: Check, ctx: FuncCtx):
+    """Return/raise exits of a function with their path conditions: [(kind, stmt, conds, value term|None)]."""
+    out = []
+    for n in sorted((x for x in _own_nodes(ctx.func) if isinstance(x, (ast.Return, ast.Raise))),
+                    key=lambda x: (x.lineno, x.col_offset)):
+        conds = conds_sym(chk, ctx, n)
+        if isinstance(n, ast.Return):
+            v = chk.R.expr(ctx, n.value, ctx.cfg.node_for(n)) if n.value is not None else S.C(None)
+            out.append(("return", n, conds, v))
+        else:
+            out.append(("raise", n, conds, None))
+    return out
+
+
+def func_eval(outcomes, val):
+    """Evaluate a loop-free function's decision structure under a valuation.
+    -> ('return', value) | ('raise', stmt) | ('ambiguous', n) | ('fallthrough',)"""
+    hits = []
+    for kind, stmt, conds, v in outcomes:
+        r = eval_conds(conds, val)
+        if r:
+            hits.append((kind, stmt, v))
+    if not hits:
+        return ("fallthrough",)
+    kind, stmt, v = hits[0]  # source order: the first exit whose path condition holds is taken
+    if kind == "raise":
+        return ("raise", stmt)
+    try:
+        return ("return", S.ev(v, val))
+    except S.EvalError:
+        return ("ambiguous", 0)
+
+
+def dead_reads(chk: Check, ctx: FuncCtx):
+    """Handle reads whose result is overwritten before any use on every path (K-LIVE).
+    -> [(stmt, description)] for self-attribute targets and locals."""
+    out = []
+    cfg = ctx.cfg
+    selfname = ctx.func.args.args[0].arg if ctx.func.args.args else None
+
+    def is_read(v):
+        t = chk.R.expr(ctx, v)
+        if t[0] == "inst" and isinstance(t[2], tuple) and t[2] and t[2][0] == "read":
+            return True
+        if t[0] == "read":
+            return True
+        if t[0] == "call" and t[1] in (".read",):
+            return True
+        if t[0] == "call" and t[1].startswith("(") and "ctype" in t[1]:
+            return True
+        return False
+
+    assigns = []
+    for n in _own_nodes(ctx.func):
+        if isinstance(n, ast.Assign) and len(n.targets) == 1:
+            tg = n.targets[0]
+            if isinstance(tg, ast.Attribute) and isinstance(tg.value, ast.Name) and tg.value.id == selfname:
+                assigns.append((n, ("attr", tg.attr)))
+    for n, (kind, name) in assigns:
+        if not _reads_handle(n.value):
+            continue
+        node = cfg.node_of.get(n)
+        if node is None:
+            continue
+        # walk forward: does every path hit another store to self.name before any load of self.name or exit?
+        dead = _overwritten_before_use(cfg, node, name, selfname)
+        if dead:
+            out.append((n, f"self.{name} is read from the file here and overwritten at line {dead.lineno} before any use"))
+    return out
+
+
+def _reads_handle(v: ast.AST) -> bool:
+    """syntactic: the value is a call with a file-handle-looking argument or a .read()"""
+    for x in ast.walk(v):
+        if isinstance(x, ast.Call):
+            if isinstance(x.func, ast.Attribute) and x.func.attr == "read":
+                return True
+            if isinstance(x.func, (ast.Subscript, ast.Attribute)) and x.args:
+                return True
+    return False
+
+
+def _overwritten_before_use(cfg, start, name, selfname):
+    """If on all paths from `start` the next access of self.<name> is a store, return one such store stmt."""
+    seen = set()
+    stack = [s for s, _ in start.succ]
+    store_hit = None
+    while stack:
+        n = stack.pop()
+        if n in seen:
+            continue
+        seen.add(n)
+        if n.kind in ("exit", "raise"):
+            if n.kind == "exit":
+                return None  # value survives to the end: it is the object's state
+            continue
+        a = n.ast
+        loads, stores = _attr_access(n, name, selfname)
+        if loads:
+            return None
+        if stores:
+            store_hit = a
+            continue
+        stack.extend(s for s, _ in n.succ)
+    return store_hit
+
+
+def _attr_access(node, name, selfname):
+    exprs = []
+    a = node.ast
+    if node.kind == "test":
+        exprs = [a.test]
+    elif node.kind == "for":
+        exprs = [a.iter]
+    elif node.kind == "with":
+        exprs = [it.context_expr for it in a.items]
+    elif node.kind == "stmt":
+        exprs = [a]
+    loads = stores = False
+    for e in exprs:
+        for x in ast.walk(e):
+            if isinstance(x, ast.Attribute) and x.attr == name and isinstance(x.value, ast.Name) and x.value.id == selfname:
+                if isinstance(x.ctx, ast.Store):
+                    stores = True
+                else:
+                    loads = True
+    # a store statement evaluates its right-hand side first
+    return loads, stores and not loads
+
+
+def select_branch(t, val):
+    """Resolve conditional terms under a valuation: ite(c, a, b) -> a or b."""
+    while t[0] == "ite":
+        try:
+            t = t[2] if S.ev(t[1], val) else t[3]
+        except S.EvalError:
+            return t
+    return t
